@@ -58,11 +58,12 @@ def unit(prop, quick=({},), thorough=None, **opts):
 
 
 class Obligation:
-    __slots__ = ("name", "hyps", "neg", "robust", "kind", "status", "time", "meta")
+    __slots__ = ("name", "hyps", "neg", "robust", "kind", "status", "time", "meta", "pairs")
 
     def __init__(self, name, hyps, neg, robust=None, kind="assert", meta=None):
         self.name, self.hyps, self.neg, self.robust, self.kind = name, hyps, neg, robust, kind
         self.status, self.time, self.meta = None, 0.0, meta
+        self.pairs = None
 
 
 def _absz(e):
@@ -144,9 +145,10 @@ class H:
             if hi is not None:
                 self.ctx.side.append(v < R(hi) if hi_strict else v <= R(hi))
             return SymReal(v)
-        if name not in self.values:
-            raise ReplayMismatch(f"no value for input {name}")
-        return float(self.values[name])
+        try:
+            return float(self.values[name])
+        except KeyError:
+            raise ReplayMismatch(f"no value for input {name}") from None
 
     def real(self, name, shape=None, lo=None, hi=None, lo_strict=False, hi_strict=False, pos=False, nonneg=False):
         if pos:
@@ -179,9 +181,10 @@ class H:
             self.ctx.inputs[name] = v
             self.ctx.side.append(z3.And(v >= int(lo), v <= int(hi)))
             return self.ctx.choose_int(v)
-        if name not in self.values:
-            raise ReplayMismatch(f"no value for input {name}")
-        return int(round(self.values[name]))
+        try:
+            return int(round(self.values[name]))
+        except KeyError:
+            raise ReplayMismatch(f"no value for input {name}") from None
 
     def choice(self, name, options):
         return options[self.choice_int(name, 0, len(options) - 1)]
@@ -283,6 +286,8 @@ class H:
             neg = z3.Or(*[x != y for x, y in zip(ea, eb)]) if ea else z3.BoolVal(False)
             rob = z3.Or(*[_absz(x - y) > z3.RealVal("1/1000") * (1 + _absz(x) + _absz(y)) for x, y in zip(ea, eb)]) if ea else None
             self._record(name, neg, rob)
+            if self.obligations and self.obligations[-1].status is None:
+                self.obligations[-1].pairs = [(x, y) for x, y in zip(ea, eb) if not x.eq(y)]
         else:
             fa, fb = np.broadcast_arrays(np.asarray(a, dtype=float), np.asarray(b, dtype=float))
             if fa.size == 0:
@@ -349,6 +354,8 @@ class H:
                 de = diff(ye, xe)
                 rob = _absz(de - ge) > z3.RealVal("1/1000") * (1 + _absz(de) + _absz(ge))
                 self._record(f"{name}[{j}]", de != ge, rob)
+                if self.obligations and self.obligations[-1].status is None:
+                    self.obligations[-1].pairs = [(de, ge)]
         else:
             xf = np.asarray(x, dtype=float)
             gf = np.asarray(g, dtype=float).ravel()
@@ -652,7 +659,7 @@ def run_unit(u, tier="quick", seed=0, query_timeout_ms=None, log=print):
                 st, mv = solve(o.hyps, timeout_ms=qto)
             else:
                 t1 = time.time()
-                st, mv, stage = prove(o.hyps, o.neg, timeout_ms=qto)
+                st, mv, stage = prove(o.hyps, o.neg, timeout_ms=qto, pairs=o.pairs)
                 o.time = time.time() - t1
             o.status = st
             out[st] += 1
